@@ -96,6 +96,25 @@ def handleSync (c : J) : Res := Id.run do
     if x.isWrite && !x.ok then r := tag r ("failed-" ++ x.verb)
     if x.isHook then r := tag r ("hook-" ++ x.hook)
   r := tag r ("outcome-" ++ result.getStr "outcome")
+  -- which states of the rollout gate the case reached (coverage of C07/C08, printed into the evidence)
+  match rollView s with
+  | none => pure ()
+  | some v =>
+    let candidates := (v.kids.map cnameOf).filter (fun c => v.oldClaim s c && v.realChange c)
+    let moved := (v.after.filter (fun c => !v.before.contains c)).filter (fun c => v.oldClaim s c && v.realChange c)
+    if !candidates.isEmpty then
+      r := tag r (if moved.isEmpty then "gate-closed" else "gate-moved")
+      for d in v.before do
+        match v.observed.lookup d, s.cfg.strategy d.1 d.2.1 with
+        | some o, some st =>
+            let og : Int := match nestedField o ["status", "observedGeneration"] with | .ok (some (.num n)) => n | _ => 0
+            if v.realChange d then r := tag r "latest-child-not-updated"
+            else if st.method == some "RollingInPlace" && og > 0 && og < getGeneration o then r := tag r "latest-child-generation-behind"
+            else if !childStatusCheck st.checks o then
+              r := tag r (if og > 0 then "latest-child-fails-checks" else "latest-child-fails-checks-no-observedGeneration")
+            else pure ()
+        | none, _ => r := tag r "latest-child-missing"
+        | _, _ => pure ()
   return r
 
 end Mc.Drv
